@@ -707,3 +707,356 @@ def run_enum_literals(chk, n_rounds, prop):
                             chk.violation(f"C01 oracle (enum-literal stream, implementation only): round trip of {a!r} as Literal{list(args)} "
                                           f"on {cn}/{'detailed' if dv else 'fast'} gives {r!r:.200}",
                                           {"ext": True, "probe": "enum-literal", "literal": repr(args), "value": repr(a)})
+
+
+# ------------------------------------------------------------------------------------------------ C06: attrs field converters
+# over annotations that cannot be structured
+
+class _Money:
+    """a plain user class cattrs has no hook for"""
+
+    def __init__(self, text):
+        self.cents = int(round(float(text) * 100))
+
+    def __eq__(self, other):
+        return type(other) is _Money and other.cents == self.cents
+
+    def __hash__(self):
+        return hash(("_Money", self.cents))
+
+    def __repr__(self):
+        return f"_Money({self.cents / 100!r})"
+
+
+def _unsupported_leaves():
+    """(class without a structure hook, leaf converter str -> instance, a valid raw value)"""
+    import datetime
+    import decimal
+    return [
+        (datetime.date, lambda v: v if isinstance(v, datetime.date) else datetime.date.fromisoformat(v), ["2020-01-02", "1999-12-31"]),
+        (decimal.Decimal, lambda v: v if isinstance(v, decimal.Decimal) else decimal.Decimal(v), ["1.50", "7"]),
+        (_Money, lambda v: v if isinstance(v, _Money) else _Money(v), ["2.25", "10"]),
+    ]
+
+
+def _fc_shape(rng, leaf, depth):
+    """-> (annotation, attrs converter, valid raw payload): a CONTAINER of / WRAPPER around a class without a hook"""
+    import collections
+    U, cv, raws = leaf
+    if depth <= 0 or rng.random() < 0.2:
+        return U, cv, rng.choice(raws)
+    inner_t, inner_cv, inner_raw = _fc_shape(rng, leaf, depth - 1)
+    # (no `Annotated`: a BaseConverter has no hook for it -- outside the common support)
+    k = rng.choice(["list", "seq", "mseq", "dict", "map", "odict", "ddict", "new", "opt", "set", "tup*", "deque", "tup"])
+    n = rng.randint(0, 2)
+    if k in ("list", "seq", "mseq"):
+        T = {"list": list, "seq": typing.Sequence, "mseq": typing.MutableSequence}[k][inner_t]
+        return T, (lambda vs, f=inner_cv: [f(v) for v in vs]), [inner_raw] * n
+    if k in ("dict", "map", "odict", "ddict"):
+        T = {"dict": dict, "map": typing.Mapping, "odict": collections.OrderedDict, "ddict": collections.defaultdict}[k][str, inner_t]
+        return T, (lambda m, f=inner_cv: {a: f(b) for a, b in m.items()}), {f"k{i}": inner_raw for i in range(n)}
+    if k == "new":
+        return typing.NewType(f"FcNT{next(_uid)}", inner_t), inner_cv, inner_raw
+    if k == "opt":
+        return Optional[inner_t], (lambda v, f=inner_cv: None if v is None else f(v)), inner_raw
+    try:
+        hash(inner_raw)
+    except TypeError:
+        k = "tup*" if k == "set" else k
+    if k == "set":
+        return set[inner_t], (lambda vs, f=inner_cv: {f(v) for v in vs}), [inner_raw][:n]
+    if k == "deque":
+        return collections.deque[inner_t], (lambda vs, f=inner_cv: collections.deque(f(v) for v in vs)), [inner_raw] * n
+    if k == "tup":
+        return tuple[inner_t, int], (lambda vs, f=inner_cv: (f(vs[0]), int(vs[1]))), [inner_raw, 3]
+    return tuple[inner_t, ...], (lambda vs, f=inner_cv: tuple(f(v) for v in vs)), [inner_raw] * n
+
+
+def _hook_creation_fails(T) -> bool:
+    """no structure hook can be CREATED for the annotation (as opposed to: a hook exists and raises
+    StructureHandlerNotFoundError when called -- the region of the recorded finding F36, which belongs to C20)"""
+    import cattrs
+    from cattrs.errors import StructureHandlerNotFoundError
+    try:
+        cattrs.Converter().get_structure_hook(T)
+    except StructureHandlerNotFoundError:
+        return True
+    except Exception:  # noqa: BLE001
+        return False
+    return False
+
+
+FC_WRAPPED_SIG = "c06-fieldconv-inner-shnf-wrapped-by-detailed-validation"
+
+
+def _all_leaves_shnf(exc) -> bool:
+    from cattrs.errors import StructureHandlerNotFoundError
+    if isinstance(exc, BaseExceptionGroup):
+        return bool(exc.exceptions) and all(_all_leaves_shnf(e) for e in exc.exceptions)
+    return isinstance(exc, StructureHandlerNotFoundError)
+
+
+def _fc_wrapped_region(dv, pac, rg, rb) -> bool:
+    """finding candidate (same root as F36, mirrored): attrs converter on the attribute, prefer_attrib_converters off,
+    detailed validation, annotation for which a Converter cannot create a hook (it hands the raw value to the attrs
+    converter and ACCEPTS) while the BaseConverter's interpretive container hook exists, meets the missing inner hook at
+    call time and re-raises it wrapped in an IterableValidationError -- which `_structure_attribute` does not swallow
+    (it catches only a bare StructureHandlerNotFoundError): BaseConverter REJECTS every payload"""
+    from cattrs.errors import IterableValidationError
+    return (dv and not pac and rg[0] == "ok" and rb[0] == "err" and isinstance(rb[1], IterableValidationError)
+            and _all_leaves_shnf(rb[1]))
+
+
+def _fc_pred(case) -> bool:
+    return isinstance(case, dict) and case.get("stream") == "fieldconv" and case.get("region") == FC_WRAPPED_SIG
+
+
+def run_c06_fieldconv(chk, n_classes):
+    from harness import framework
+    framework.FINDING_PREDICATES.setdefault(FC_WRAPPED_SIG, _fc_pred)
+    _run_c06_fieldconv(chk, n_classes)
+
+
+def _run_c06_fieldconv(chk, n_classes):
+    """Engine agreement on attrs classes whose attributes carry NON-identity attrs converters and are annotated with
+    containers of / wrappers around classes cattrs has no hook for (`list[date]`, `dict[str, Decimal]`,
+    `Annotated[list[Money], ...]`, NewTypes ...), next to ordinary attributes with and without converters; both values of
+    prefer_attrib_converters, both validation modes, both strategies; valid, corrupted and incomplete payloads.  Oracle
+    (statement of C06): Converter and BaseConverter both reject, or both accept with equal results.
+    Annotations whose hook can be created but fails when CALLED (Optional[U], set[U], tuple[U, ...], ...) are the
+    recorded finding F36 (C20): counted, not judged."""
+    import cattrs
+    rng = chk.rng
+    leaves = _unsupported_leaves()
+    for _ in range(n_classes):
+        leaf = rng.choice(leaves)
+        T, cv, raw = _fc_shape(rng, leaf, rng.randint(0, 2))
+        eager = _hook_creation_fails(T)
+        chk.note("fieldconv:annotation:" + ("no-hook-can-be-created" if eager else "hook-fails-when-called(F36 region: skipped)"))
+        if not eager:
+            continue
+        fields = {}
+        kw = {"type": T, "converter": cv}
+        mode = rng.choice(["required", "default-none", "factory"])
+        if mode == "default-none":
+            kw["default"] = None
+        elif mode == "factory":
+            kw["factory"] = (lambda raw=raw: cv(raw))
+        if rng.random() < 0.3:
+            kw["kw_only"] = True
+        others = []
+        if rng.random() < 0.7:
+            others.append(("n", attrs.field(type=int, converter=int, default=0)))
+        if rng.random() < 0.5:
+            others.append(("s", attrs.field(type=str, default="d")))
+        if rng.random() < 0.4:
+            others.append(("i", attrs.field(type=list[int], converter=(lambda v: v), factory=list)))
+        items = [("x", attrs.field(**kw))] + others
+        rng.shuffle(items)
+        items.sort(key=lambda kv: (kv[1]._default is not attrs.NOTHING) and not kv[1].kw_only)
+        cl = attrs.make_class(f"Fc{next(_uid)}", dict(items))
+        base = {"x": raw, "n": "4", "s": "t", "i": [1, "2"]}
+        base = {k: v for k, v in base.items() if k in dict(items)}
+        payloads = [("valid", base)]
+        for _ in range(3):
+            payloads.append(("mutated", mutate_leaf(rng, base)))
+        payloads.append(("x-missing", {k: v for k, v in base.items() if k != "x"}))
+        payloads.append(("x-junk", dict(base, x=rng.choice(["zz", 5, None, [], {}]))))
+        for tup in (False, True):
+            strat = cattrs.UnstructureStrategy.AS_TUPLE if tup else cattrs.UnstructureStrategy.AS_DICT
+            for dv in (True, False):
+                for pac in (False, True):
+                    kwc = dict(detailed_validation=dv, prefer_attrib_converters=pac, unstruct_strat=strat)
+                    cg, cb = cattrs.Converter(**kwc), cattrs.BaseConverter(**kwc)
+                    base_first = rng.random() < 0.5       # which engine meets the class first
+                    cfgname = f"{'tuple' if tup else 'dict'}/{'detailed' if dv else 'fast'}{'/pac' if pac else ''}"
+                    for kind, p in payloads:
+                        if tup:
+                            p = [p[a.name] for a in attrs.fields(cl) if a.name in p] if kind == "valid" else list(p.values())
+                        if base_first:
+                            r2 = _try(lambda: cb.structure(p, cl))
+                            r1 = _try(lambda: cg.structure(p, cl))
+                        else:
+                            r1 = _try(lambda: cg.structure(p, cl))
+                            r2 = _try(lambda: cb.structure(p, cl))
+                        chk.count("ext:c06fc" + repr(T)[:80] + cfgname + kind + repr(p)[:200], sample=None)
+                        chk.note("fieldconv:engines(Converter/BaseConverter):" + r1[0] + "/" + r2[0], "fieldconv:" + mode)
+                        o1, o2 = _outcome(r1), _outcome(r2)
+                        if o1[0] != o2[0] or (o1[0] == "ok" and not same(o1[1], o2[1])):
+                            case = {"ext": True, "stream": "fieldconv", "annotation": repr(T)[:200], "config": cfgname,
+                                    "payload": repr(p)[:400], "converter": repr(r1)[:300], "baseconverter": repr(r2)[:300]}
+                            what = (f"C06 oracle (field-converter stream): attrs class with `x: {T!r:.80} = field(converter=...)` "
+                                    f"[{cfgname}] structure({p!r:.160}): Converter -> {r1!r:.140}, BaseConverter -> {r2!r:.140}")
+                            if _fc_wrapped_region(dv, pac, r1, r2):
+                                # recorded / candidate finding: reported through the framework only when registered in
+                                # known_findings.json (then it shows as KNOWN-FINDING with its reproduction count)
+                                chk.note("fieldconv:inner-SHNF-wrapped-by-detailed-validation(finding region)")
+                                if any(f.get("signature") == FC_WRAPPED_SIG for f in chk.known):
+                                    chk.violation(what, dict(case, region=FC_WRAPPED_SIG))
+                                continue
+                            chk.violation(what, case)
+
+
+# ------------------------------------------------------------------------------------------------ generator options
+# (C02 / C04): hooks built by make_dict_structure_fn with `_cattrs_use_alias`, `_cattrs_include_init_false`,
+# override(omit=False / rename=...), `_cattrs_forbid_extra_keys`, on classes with private / aliased / init=False /
+# kw_only / defaulted attributes.  Implementation-only.
+
+_GO_TYPES = ["int", "str", "bool", ("list", "int"), ("opt", "int"), ("dict", "str", "int")]
+
+
+def _go_class(G):
+    """-> (class, [field descriptions]): an attrs class with private names, explicit aliases, init=False attributes
+    (with and without defaults), kw_only, defaults and factories"""
+    r = G.rng
+    names = r.sample(["a", "b", "_c", "_d", "e", "xy", "_pq"], r.randint(1, 4))
+    fds = []
+    for n in names:
+        t = r.choice(_GO_TYPES)
+        f = {"name": n, "ty": t, "alias": None, "init": True, "dflt": False, "kw_only": False, "value": None}
+        if r.random() < 0.3:
+            f["alias"] = r.choice(["al_" + n.lstrip("_"), n.lstrip("_") + "2", "A"])
+        if r.random() < 0.5:
+            f["dflt"] = True
+            f["value"] = G.value(t)
+        if r.random() < 0.3:
+            f["init"] = False
+        elif r.random() < 0.2:
+            f["kw_only"] = True
+        fds.append(f)
+    als = [f["alias"] for f in fds if f["alias"]]
+    if len(set(als)) != len(als):
+        for f in fds:
+            f["alias"] = None
+    d = {}
+    for f in fds:
+        kw = {"type": G.py_ty(f["ty"])}
+        if f["alias"]:
+            kw["alias"] = f["alias"]
+        if f["dflt"]:
+            v = f["value"]
+            if isinstance(v, (int, str, bool, type(None))):
+                kw["default"] = v
+            else:
+                kw["factory"] = (lambda v=v: type(v)(v))
+        if not f["init"]:
+            kw["init"] = False
+        if f["kw_only"]:
+            kw["kw_only"] = True
+        d[f["name"]] = attrs.field(**kw)
+    order = sorted(fds, key=lambda f: (f["dflt"] and f["init"] and not f["kw_only"]))
+    cl = attrs.make_class(f"Go{next(_uid)}", {f["name"]: d[f["name"]] for f in order}, slots=r.random() < 0.5)
+    by = {a.name: a for a in attrs.fields(cl)}
+    for f in order:
+        f["attr_alias"] = by[f["name"]].alias
+    return cl, order
+
+
+def _go_outcome(r, fds):
+    """('ok', {attribute: value | <unset>}) | ('err',)"""
+    if r[0] != "ok":
+        return ("err",)
+    return ("ok", {f["name"]: getattr(r[1], f["name"], "<unset>") for f in fds}, type(r[1]))
+
+
+def run_genopts(chk, n_classes, prop):
+    import cattrs
+    from cattrs.gen import make_dict_structure_fn, override
+    G = ExtGen(chk.rng)
+    r = chk.rng
+    for _ in range(n_classes):
+        cl, fds = _go_class(G)
+        use_alias = r.random() < 0.6
+        iif = r.random() < 0.5
+        forbid = r.random() < 0.3
+        ovs = {}
+        for f in fds:
+            c = r.random()
+            if not f["init"] and c < 0.4:
+                ovs[f["name"]] = override(omit=False)
+            elif c < 0.1:
+                ovs[f["name"]] = override(rename="rn_" + f["name"].lstrip("_"))
+        included = [f for f in fds if f["init"] or iif or (f["name"] in ovs and ovs[f["name"]].omit is False)]
+
+        def key(f):
+            ov = ovs.get(f["name"])
+            if ov is not None and ov.rename is not None:
+                return ov.rename
+            return f["attr_alias"] if use_alias else f["name"]
+
+        valid = {key(f): G.value(f["ty"]) for f in included}
+        payloads = [("valid", valid)]
+        for f in included:
+            bad = dict(valid)
+            bad[key(f)] = r.choice(["zz?", None, [None], {"k": "v"}, "nope"])
+            payloads.append(("junk:" + ("init-false" if not f["init"] else "init"), bad))
+            miss = {k: v for k, v in valid.items() if k != key(f)}
+            payloads.append(("missing:" + ("init-false" if not f["init"] else "init"), miss))
+            other = f["name"] if key(f) != f["name"] else f["attr_alias"]
+            if other != key(f) and other not in valid:
+                moved = {k: v for k, v in valid.items() if k != key(f)}
+                moved[other] = G.value(f["ty"])
+                payloads.append(("other-spelling-of-key", moved))
+        payloads.append(("extra", dict(valid, zz_extra=1)))
+        for ccls in (cattrs.Converter, cattrs.BaseConverter):
+            hooks = {}
+            for dv in (True, False):
+                conv = ccls(detailed_validation=dv)
+                hooks[dv] = _try(lambda: make_dict_structure_fn(
+                    cl, conv, _cattrs_use_alias=use_alias, _cattrs_include_init_false=iif,
+                    _cattrs_forbid_extra_keys=forbid, _cattrs_detailed_validation=dv, **ovs))
+            opts = f"use_alias={use_alias} include_init_false={iif} forbid={forbid} overrides={sorted(ovs)}"
+            desc = f"{ccls.__name__} {cl.__name__}({', '.join(f['name'] + ': ' + describe(f['ty']) + ('' if f['init'] else ' [init=False]') + (' =dflt' if f['dflt'] else '') for f in fds)}) {opts}"
+            if prop == "C04" and hooks[True][0] != hooks[False][0]:
+                chk.violation(f"C04 oracle (generator-options stream): hook creation differs: detailed -> {hooks[True]!r:.120}, fast -> {hooks[False]!r:.120} [{desc}]",
+                              {"ext": True, "stream": "genopts", "class": desc})
+            if hooks[True][0] != "ok" or hooks[False][0] != "ok":
+                chk.note("genopts:hook-creation-failed")
+                continue
+            for kind, p in payloads:
+                res = {dv: _try(lambda: hooks[dv][1](dict(p), cl)) for dv in (True, False)}
+                chk.count("ext:genopts" + desc + repr(p)[:200], sample=None)
+                chk.note("genopts:" + kind.split(":")[0], "genopts:use_alias" if use_alias else "genopts:by-name",
+                         "genopts:include_init_false" if iif else "genopts:init-false-skipped")
+                case = {"ext": True, "stream": "genopts", "class": desc, "payload": repr(p)[:300],
+                        "detailed": repr(res[True])[:300], "fast": repr(res[False])[:300]}
+                if prop == "C04":
+                    od, of = _go_outcome(res[True], fds), _go_outcome(res[False], fds)
+                    if od[0] != of[0] or (od[0] == "ok" and not (od[2] is of[2] and od[1].keys() == of[1].keys()
+                                                                   and all(same(od[1][k], of[1][k]) for k in od[1]))):
+                        chk.violation(f"C04 oracle (generator-options stream): modes disagree on {p!r:.160}: detailed -> {res[True]!r:.140}, "
+                                      f"fast -> {res[False]!r:.140} [{desc}]", case)
+                    continue
+                # C02: an accepted result conforms; a present component is structured or the call raises
+                for dv in (True, False):
+                    rr = res[dv]
+                    if rr[0] != "ok":
+                        continue
+                    mode = "detailed" if dv else "fast"
+                    if type(rr[1]) is not cl:
+                        chk.violation(f"C02 oracle (generator-options stream, {mode}): result is not an instance of the class [{desc}]", case)
+                        continue
+                    for f in included:
+                        k = key(f)
+                        has = hasattr(rr[1], f["name"])
+                        if k in p:
+                            alone = _try(lambda: ccls(detailed_validation=dv).structure(p[k], G.py_ty(f["ty"])))
+                            if alone[0] == "err":
+                                chk.violation(
+                                    f"C02 oracle (generator-options stream, {mode}): key {k!r} of {p!r:.160} is present but invalid for "
+                                    f"{describe(f['ty'])}, yet the hook returned {rr[1]!r:.120} (attribute {'= ' + repr(getattr(rr[1], f['name'])) if has else 'left UNSET'}: "
+                                    f"invalid component silently dropped / defaulted) [{desc}]", case)
+                                break
+                            if not has or not same(getattr(rr[1], f["name"]), alone[1]):
+                                chk.violation(
+                                    f"C02 oracle (generator-options stream, {mode}): key {k!r} of {p!r:.160} structures to {alone[1]!r} alone, the "
+                                    f"instance holds {getattr(rr[1], f['name'], '<unset>')!r} [{desc}]", case)
+                                break
+                        elif f["init"] and not f["dflt"]:
+                            chk.violation(f"C02 oracle (generator-options stream, {mode}): required key {k!r} is missing from {p!r:.160}, "
+                                          f"yet the hook returned {rr[1]!r:.120} [{desc}]", case)
+                            break
+                        if has and not conforms(f["ty"], getattr(rr[1], f["name"])):
+                            chk.violation(f"C02 oracle (generator-options stream, {mode}): attribute {f['name']} = {getattr(rr[1], f['name'])!r} "
+                                          f"does not conform to {describe(f['ty'])} [{desc}]", case)
+                            break
